@@ -43,6 +43,12 @@ pub struct PairCase {
     pub turns: u16,
     pub along_axis: bool,
     pub common: (f64, f64, f64, bool),
+    /// families 8, 9: a small signed turn about the contact vertex and a small signed lateral offset (fraction of the
+    /// enclosing radius) applied on top of an aligned configuration
+    #[serde(default)]
+    pub tilt: f64,
+    #[serde(default)]
+    pub lateral: f64,
 }
 
 fn angle() -> BoxedStrategy<f64> {
@@ -51,11 +57,11 @@ fn angle() -> BoxedStrategy<f64> {
 
 fn strat_for(shape: BoxedStrategy<ShapeSpec>) -> BoxedStrategy<PairCase> {
     (
-        (shape, 0u8..8, angle(), angle(), any::<bool>(), any::<bool>()),
+        (shape, 0u8..10, angle(), angle(), any::<bool>(), any::<bool>()),
         (0.0..(2. * PI), 0.0..2.5f64, any::<u16>(), any::<u16>(), -2.2..2.2f64, prop_oneof![4 => 0.0..1.0f64, 1 => Just(0.5), 1 => Just(0.), 1 => Just(1.)]),
-        (-12.0..-6.0f64, any::<bool>(), any::<u16>(), any::<bool>(), (0.0..(2. * PI), -50.0..50.0f64, -50.0..50.0f64, any::<bool>())),
+        (-12.0..-6.0f64, any::<bool>(), any::<u16>(), any::<bool>(), (0.0..(2. * PI), -50.0..50.0f64, -50.0..50.0f64, any::<bool>()), small_signed(-13., -1.), small_signed(-16., -6.)),
     )
-        .prop_map(|((shape, family, phi1, phi2, mirror1, mirror2), (dir, dist, i, j, s, tpar), (gap_exp, gap_neg, turns, along_axis, common))| PairCase {
+        .prop_map(|((shape, family, phi1, phi2, mirror1, mirror2), (dir, dist, i, j, s, tpar), (gap_exp, gap_neg, turns, along_axis, common, tilt, lateral))| PairCase {
             shape,
             family,
             phi1,
@@ -73,8 +79,15 @@ fn strat_for(shape: BoxedStrategy<ShapeSpec>) -> BoxedStrategy<PairCase> {
             turns,
             along_axis,
             common,
+            tilt,
+            lateral,
         })
         .boxed()
+}
+
+/// 0, or +-10^U(lo, hi)
+fn small_signed(lo: f64, hi: f64) -> BoxedStrategy<f64> {
+    prop_oneof![1 => Just(0.0f64), 6 => (lo..hi, any::<bool>()).prop_map(|(e, neg)| if neg { -(10f64.powf(e)) } else { 10f64.powf(e) })].boxed()
 }
 
 fn lin_of(phi: f64, mirror: bool) -> Lin {
@@ -135,6 +148,37 @@ fn placements(c: &PairCase, os: &OShape) -> (Aff, Aff, &'static str) {
             let i = idx(c.i, n);
             let j = idx(c.j, n);
             match f {
+                8 => {
+                    // corner to corner with a side of B on the continuation of a side of A beyond the corner: B is turned so
+                    // that its side leaves the corner along the direction of A's side, then turned about the corner by
+                    // `tilt`, moved along the line by the gap and off the line by `lateral`
+                    let prev = va[(i + n - 1) % n];
+                    let e = va[i].sub(prev);
+                    let len = (e.x * e.x + e.y * e.y).sqrt();
+                    let d = P::new(e.x / len, e.y / len);
+                    let nrm = P::new(-d.y, d.x);
+                    let base = lin_of(0., c.mirror2);
+                    let jn = if c.along_axis { (j + 1) % n } else { (j + n - 1) % n };
+                    let eb = base.apply(v[jn]).sub(base.apply(v[j]));
+                    let theta = d.y.atan2(d.x) - eb.y.atan2(eb.x) + c.tilt;
+                    let l = Lin::rot(theta).mul(base);
+                    let vb = l.apply(v[j]);
+                    let g = if c.gap_neg { -(10f64.powf(c.gap_exp)) } else { 10f64.powf(c.gap_exp) } * r;
+                    let corner = va[i].add(d.scale(g)).add(nrm.scale(c.lateral * r));
+                    (a, Aff { l, t: corner.sub(vb) }, "collinear-continuation")
+                }
+                9 => {
+                    // an aligned configuration (vertex on vertex / vertex on edge, same or symmetry-related orientation)
+                    // turned about the contact point by `tilt` and moved by the gap in the direction `dir`
+                    let k = idx(c.turns, n);
+                    let l0 = if c.along_axis { Lin::rot(2. * PI * k as f64 / n as f64).mul(a.l) } else { lin_of(c.phi2, c.mirror2) };
+                    let l = Lin::rot(c.tilt).mul(l0);
+                    let vb = l.apply(v[j]);
+                    let contact = va[i].add(va[(i + 1) % n].sub(va[i]).scale(c.tpar));
+                    let g = if c.gap_neg { -(10f64.powf(c.gap_exp)) } else { 10f64.powf(c.gap_exp) } * r;
+                    let moved = contact.add(P::new(c.dir.cos(), c.dir.sin()).scale(g));
+                    (a, Aff { l, t: moved.sub(vb) }, "aligned-then-perturbed")
+                }
                 1 => {
                     let e = va[(i + 1) % n].sub(va[i]);
                     (a, Aff { l: a.l, t: e.scale(c.s) }, "same-orientation-along-edge")
